@@ -362,6 +362,21 @@ func (rep *CheckReport) replayAll(o *checkOpts) {
 			}
 		}
 		if len(vs) == 0 {
+			if o.buildReplay {
+				tmp, err := os.MkdirTemp("", "gosym-replay-")
+				if err == nil {
+					lockSites = false
+					for _, hd := range g.P.harness {
+						if hd.Opts["sched"] == "1" {
+							lockSites = true
+						}
+					}
+					if _, err := buildReplayBinary(o.repo, g.spec, g.P.stubSpec, g.P.harnessNames(), tmp); err != nil {
+						rep.Problems = append(rep.Problems, "replay build: "+err.Error())
+					}
+					os.RemoveAll(tmp)
+				}
+			}
 			continue
 		}
 		tmp, err := os.MkdirTemp("", "gosym-replay-")
